@@ -643,4 +643,54 @@ theorem shared_scratch_breaks :
 example : favFile cfgDefault 3363 1 16843009 5 =
     some [0x23, 0x0d, 1, 0, 0, 0, 1, 1, 1, 0, 0, 0, 1, 1, 1, 1, 5, 0, 0, 0] := by decide +kernel
 
+
+/-! ### `.BRD`: a new board re-using a vacated slot -/
+
+/-- ptt.addBoardRecord, vacated-slot branch, all files / slots / headers: the 256-byte header lands at record
+`bid-1` — the file keeps its length, that record (which was vacated) becomes the new header and EVERY other
+board header is unchanged. -/
+theorem brd_new_frame (c : Config) (sz : Nat) (t : Ty)
+    (hc : c.const "BOARD_HEADER_RAW_SZ" = some sz) (ht : c.ty "BoardHeaderRaw" = some t) (hsz : sizeP t = sz)
+    (before : List Nat) (bid : Nat) (r after : List Nat) (h : brdNew c before bid r = some after)
+    (hin : bid ≤ before.length / sz) :
+    1 ≤ bid ∧ r.length = sz ∧ vacated before sz (bid - 1) = true ∧ after.length = before.length ∧
+    (∀ v, v ≠ bid - 1 → slot after sz v = slot before sz v) ∧ slot after sz (bid - 1) = r := by
+  unfold brdNew at h
+  simp only [hc, ht, Option.bind_eq_bind, Option.bind_some, hsz] at h
+  split at h
+  · cases h
+  · rename_i hcond
+    have hr : r.length = sz := by omega
+    have hb : 1 ≤ bid := by omega
+    have hz : 0 < sz := by omega
+    split at h
+    · rename_i hv
+      simp only [Option.some.injEq] at h
+      subst h
+      have hfile : bid * sz ≤ before.length := by
+        have := Nat.div_mul_le_self before.length sz
+        have := Nat.mul_le_mul_right sz hin
+        omega
+      obtain ⟨a1, _, _, a4, a5, _⟩ := update_field_frame before sz bid 0 r hb (by omega) hfile
+      refine ⟨hb, hr, hv, a1, a4, ?_⟩
+      have hl : (slot (writeAt before (seekPos sz bid 0) r) sz (bid - 1)).length = sz := by
+        have hm : bid * sz = (bid - 1) * sz + sz := by
+          obtain ⟨w, rfl⟩ : ∃ w, bid = w + 1 := ⟨bid - 1, by omega⟩
+          simp [Nat.succ_mul]
+        simp [slot, a1]; omega
+      have : fieldBytes (slot (writeAt before (seekPos sz bid 0) r) sz (bid - 1)) 0 r.length
+          = slot (writeAt before (seekPos sz bid 0) r) sz (bid - 1) := by
+        rw [hr]; unfold fieldBytes
+        rw [List.drop_zero]; exact List.take_of_length_le (by omega)
+      rw [← this]; exact a5
+    · cases h
+
+/-- witness for the broken rule (1-based bid used as the 0-based record index): the header written for bid 1
+lands on the record of bid 2. -/
+theorem brd_index_off_by_one_breaks :
+    slot (writeAt (List.replicate 8 0 ++ List.replicate 8 7) (seekPos 8 (1 + 1) 0) (List.replicate 8 1)) 8 1
+      = List.replicate 8 1 ∧
+    slot (writeAt (List.replicate 8 0 ++ List.replicate 8 7) (seekPos 8 (1 + 1) 0) (List.replicate 8 1)) 8 0
+      = List.replicate 8 0 := by decide
+
 end PttVerif.C01.Props
